@@ -370,6 +370,10 @@ bool muggle_bytes_buffer_reader_move(muggle_bytes_buffer_t *bytes_buf, int num_b
 	if (cr >= num_bytes)
 	{
 		bytes_buf->r += num_bytes;
+		if (bytes_buf->r == bytes_buf->t)
+		{
+			bytes_buf->r = 0;
+		}
 		muggle_bytes_buffer_refresh(bytes_buf);
 		return true;
 	}
